@@ -536,19 +536,28 @@ func (prog Progress) walk_transform_iterateList(n datamodel.Node, s selector.Sel
 					lnk, _ := v.AsLink()
 					if prog.Cfg.LinkVisitOnlyOnce {
 						if _, seen := prog.SeenLinks[lnk]; seen {
+							// not explored: the link itself stays in place
+							if err := lstBldr.AssembleValue().AssignNode(v); err != nil {
+								return nil, err
+							}
 							continue
 						}
 						prog.SeenLinks[lnk] = struct{}{}
 					}
 					progNext.LastBlock.Path = progNext.Path
 					progNext.LastBlock.Link = lnk
-					v, err = progNext.loadLink(lnk, v, n)
+					loaded, err := progNext.loadLink(lnk, v, n)
 					if err != nil {
 						if _, ok := err.(SkipMe); ok {
+							// not explored: the link itself stays in place
+							if err := lstBldr.AssembleValue().AssignNode(v); err != nil {
+								return nil, err
+							}
 							continue
 						}
 						return nil, err
 					}
+					v = loaded
 				}
 
 				next, err := progNext.WalkTransforming(v, sNext, fn)
@@ -603,19 +612,28 @@ func (prog Progress) walk_transform_iterateMap(n datamodel.Node, s selector.Sele
 					lnk, _ := v.AsLink()
 					if prog.Cfg.LinkVisitOnlyOnce {
 						if _, seen := prog.SeenLinks[lnk]; seen {
+							// not explored: the link itself stays in place
+							if err := mapBldr.AssembleValue().AssignNode(v); err != nil {
+								return nil, err
+							}
 							continue
 						}
 						prog.SeenLinks[lnk] = struct{}{}
 					}
 					progNext.LastBlock.Path = progNext.Path
 					progNext.LastBlock.Link = lnk
-					v, err = progNext.loadLink(lnk, v, n)
+					loaded, err := progNext.loadLink(lnk, v, n)
 					if err != nil {
 						if _, ok := err.(SkipMe); ok {
+							// not explored: the link itself stays in place
+							if err := mapBldr.AssembleValue().AssignNode(v); err != nil {
+								return nil, err
+							}
 							continue
 						}
 						return nil, err
 					}
+					v = loaded
 				}
 
 				next, err := progNext.WalkTransforming(v, sNext, fn)
